@@ -21,10 +21,15 @@ interleavings share one state; the shape of Put comes from the regenerated facts
                                                      (the writers of the meta page as threads, programs
                                                       decoded from Generated/C05Meta; mw-run executes thread t
                                                       up to its next store into the meta page)
+  ipos   ip-put <hex|->                              (index page position, Model/C05IndexPos.lean: the held
+                                                      index page object / indexPageIndex; ip-put = put that also
+                                                      reports the page:slot its item was stored through, computed
+                                                      with the switch test decoded from Generated.C05.persistSwitchCond)
 -/
 import LinVerif.Util.Proto
 import LinVerif.Model.QueueFactory
 import LinVerif.Model.C05QueueMeta
+import LinVerif.Model.C05IndexPos
 import LinVerif.Generated.C05
 import LinVerif.Generated.C05Meta
 
@@ -176,6 +181,27 @@ def seqPut (d : DSt) (m : Msg) : DSt × String :=
   | (_, .tooLarge) => (d, "err too-large")
   | (_, .acquireFailed) => (d, "bad-op")   -- a plain Put has no AcquirePage fault
 
+/-- the position part of the queue object: in Model/Queue.lean the held index page object is the
+page of `indexPageIndex` (Props.C05.index_store_page_follows_seq / index_pos_refines_queue_model) -/
+def posOfQ (q : Q) : IndexPos.Pos := ⟨q.indexPageIndex, q.indexPageIndex, q.appended⟩
+
+def showPos (p : IndexPos.Pos) : String := s!"held={p.held} idx={p.idx}"
+
+/-- `ip-put`: the Put of the main model, plus where the position model (switch test from the
+regenerated condition) stores the item and what it holds afterwards -/
+def seqPutPos (d : DSt) (m : Msg) : DSt × String :=
+  match IndexPos.decodeSw Generated.C05.persistSwitchCond with
+  | none => (d, "bad-op")     -- a switch test the position model does not know
+  | some sw =>
+    if d.σ.busy ≠ 0 then (d, "not-enabled") else
+    match put d.σ.st m with
+    | (st, .ok s) =>
+      let r := IndexPos.persistPos indexItemsPerPage sw (posOfQ d.σ.st.q)
+      ({ d with σ := withSt d.σ st },
+        s!"ok seq={s} {showCur st.q} store={r.2.page}:{r.2.slot} {showPos r.1}")
+    | (_, .tooLarge) => (d, "err too-large")
+    | (_, .acquireFailed) => (d, "bad-op")
+
 def seqPutFail (d : DSt) (m : Msg) : DSt × String :=
   if d.σ.busy ≠ 0 then (d, "not-enabled") else
   match putF d.σ.st m with
@@ -272,6 +298,11 @@ def step (d : DSt) (ws : List String) : DSt × String :=
     match parseMsg w with
     | some m => seqPut d m
     | none => (d, "bad-op")
+  | ["ip-put", w] =>
+    match parseMsg w with
+    | some m => seqPutPos d m
+    | none => (d, "bad-op")
+  | ["ipos"] => (d, "ok " ++ showPos (posOfQ d.σ.q))
   | ["putgen", a, b] =>
     match a.toNat?, b.toNat? with
     | some start, some len => seqPut d (Msg.gen start len)
